@@ -24,17 +24,19 @@ CodeBase == 64
 \*         (VBAR+16: MOV R7,#192 ; SUBS PC,LR,#8) repairs R7 and re-executes the LDR under the restored IT state
 Menu(m) == CASE m = 0 -> <<"a", "a", "a", "a", "a">> [] m = 1 -> <<"w", "a", "w", "a", "a">> [] m = 2 -> <<"a", "c", "a", "a", "a">>
              [] m = 3 -> <<"a", "s", "a", "a", "a">> [] m = 4 -> <<"s", "a", "a", "s", "a">> [] m = 5 -> <<"a", "l", "a", "a", "a">>
-             [] m = 6 -> <<"a", "a", "l", "s", "a">>
+             [] m = 6 -> <<"a", "a", "l", "s", "a">> [] m = 7 -> <<"a", "m", "a", "a", "a">> [] m = 8 -> <<"m", "a", "a", "m", "a">>
 SlotBytes(form, k) ==
   CASE form = "a" -> <<1, 48 + k>>                                   \* 0x3k01  ADDS Rk, #1
     [] form = "w" -> <<k, 241, 1, k>>                                \* 0xF10k 0k01  ADD.W Rk, Rk, #1
     [] form = "c" -> <<0, 46>>                                       \* 0x2E00  CMP R6, #0
     [] form = "s" -> <<0, 223>>                                      \* 0xDF00  SVC #0
     [] form = "l" -> <<56, 104>>                                     \* 0x6838  LDR R0, [R7]
+    [] form = "m" -> <<136, 243, 0, 136>>                            \* 0xF388 8800  MSR APSR_nzcvq, R8   (R8 = 0x66000000: NZCV := 0110;
+                                                                     \*   bits 26:24 of R8 are set and must NOT reach CPSR.IT<1:0> / J)
 RECURSIVE Cat(_, _)
 Cat(seqs, k) == IF k > Len(seqs) THEN <<>> ELSE seqs[k] \o Cat(seqs, k + 1)
 Program(fc, mask, m) == <<fc * 16 + mask, 191>> \o Cat([k \in 1..5 |-> SlotBytes(Menu(m)[k], k)], 1)     \* 0xBFxx IT
-ProgLen(m) == 2 + (IF m = 1 THEN 14 ELSE 10)
+ProgLen(m) == 2 + (CASE m = 1 -> 14 [] m = 7 -> 12 [] m = 8 -> 14 [] OTHER -> 10)
 \* IRQ vector (VBAR = 128, offset 24): SUBS PC, LR, #4 (ARM, E25EF004), handler runs in ARM state (SCTLR.TE = 0)
 \* 136: E1B0F00E MOVS PC,LR (SVC) ; 140: 0 ; 144: E3A070C0 MOV R7,#192 ; 148: E25EF008 SUBS PC,LR,#8 (data abort) ; 152: E25EF004 (IRQ)
 Handlers == <<14, 240, 176, 225,  0, 0, 0, 0,  192, 112, 160, 227,  8, 240, 94, 226,  4, 240, 94, 226>>
@@ -44,7 +46,7 @@ MemImage(fc, mask, m) ==
   [j \in 1..256 |-> IF j - 1 >= CodeBase /\ j - 1 < CodeBase + Len(prog) THEN prog[j - CodeBase]
                     ELSE IF j - 1 >= 136 /\ j - 1 < 156 THEN Handlers[j - 136] ELSE 0]
 S0(fc, mask, fl, m) ==
-  [R |-> [r \in RNames |-> IF r = "PC" THEN <<0, CodeBase>> ELSE IF r \in {"R6usr", "R7usr"} THEN <<0, 1>> ELSE Zero],
+  [R |-> [r \in RNames |-> IF r = "PC" THEN <<0, CodeBase>> ELSE IF r \in {"R6usr", "R7usr"} THEN <<0, 1>> ELSE IF r = "R8usr" THEN <<26112, 0>> ELSE Zero],
    cpsr |-> WOr(<<fl * 4096, 32 + 16>>, Zero),                       \* NZCV = fl, T = 1, mode User, I = 0
    spsr |-> [mm \in SpsrNames |-> Zero], elr |-> Zero,
    sys |-> [SCTLR |-> MkWordBits(<< <<22, 1>>, <<1, IF HasL(m) THEN 1 ELSE 0>> >>), SCR |-> Zero, HCR |-> Zero, HSCTLR |-> Zero, VBAR |-> <<0, 128>>, MVBAR |-> Zero,
@@ -83,11 +85,14 @@ AtEnd == Running /\ s.R.PC = EndPC /\ PM(s.cpsr) = USR
 BLen == ITLen(sc.mask)
 Pat == ITPattern(sc.fc, sc.mask)
 \* flags seen by slot k: the initial flags, unless the menu's CMP R6,#0 (R6 = 1 -> NZCV = 0010) ran before it
-CmpSlot == IF sc.m = 2 THEN 2 ELSE 0
-CmpRan == CmpSlot # 0 /\ (CmpSlot > BLen \/ ConditionHolds(Pat[CmpSlot], sc.fl))
-FlagsAt(k) == IF CmpSlot # 0 /\ k > CmpSlot /\ CmpRan THEN 2 ELSE sc.fl
+\* slots that write the flags when they execute: "c" (CMP R6,#0 with R6 = 1 -> 0010) and "m" (MSR APSR_nzcvq, R8 -> 0110)
+FlagVal(form) == IF form = "c" THEN 2 ELSE 6
+RECURSIVE FlagsAt(_)
+FlagsAt(k) == IF k = 1 THEN sc.fl
+              ELSE LET f == FlagsAt(k - 1)  form == Menu(sc.m)[k - 1] IN
+                   IF form \in {"c", "m"} /\ (k - 1 > BLen \/ ConditionHolds(Pat[k - 1], f)) THEN FlagVal(form) ELSE f
 Executes(k) == k > BLen \/ ConditionHolds(Pat[k], FlagsAt(k))
-Expected(k) == IF Menu(sc.m)[k] \in {"c", "s", "l"} THEN 0 ELSE IF Executes(k) THEN 1 ELSE 0
+Expected(k) == IF Menu(sc.m)[k] \in {"c", "s", "l", "m"} THEN 0 ELSE IF Executes(k) THEN 1 ELSE 0
 \* IT state register while slot k is the next instruction: k - 1 advances of firstcond:mask
 RECURSIVE ITAt(_)
 ITAt(k) == IF k = 1 THEN sc.fc * 16 + sc.mask ELSE ITAdvance(ITAt(k - 1))
